@@ -57,9 +57,12 @@ if which == "hmm":
         if not np.array_equal(np.asarray(st), want):
             fails.append({"fn": "backward_sample(categorical:=argmax)", "observed": [int(v) for v in st], "required": [int(v) for v in want]})
 else:
-    for ds, do, T in [(2, 1, 1), (2, 1, 3), (1, 2, 2), (3, 2, 4)]:
+    for ds, do, T, int_prior in [(2, 1, 1, False), (2, 1, 3, False), (1, 2, 2, False), (3, 2, 4, False), (2, 1, 3, True)]:
         A = rng.normal(size=(ds, ds)) * 0.5; C = rng.normal(size=(do, ds))
         Q = np.eye(ds) * 0.3 + 0.05; R = np.eye(do) * 0.2 + 0.02; P0 = np.eye(ds) * 0.7 + 0.1; m0 = rng.normal(size=ds)
+        if int_prior:
+            # an integer-typed prior (m0 = zeros(d, int), P0 = eye(d, int)): the filtered moments are still reals
+            P0 = np.eye(ds, dtype=np.int32); m0 = np.arange(ds, dtype=np.int32)
         y = rng.normal(size=(T, do))
         # joint Gaussian over (x_0..x_{T-1}, y_0..y_{T-1})
         n = T * ds
@@ -86,7 +89,7 @@ else:
             mc = mx + G @ (yv[:k] - my[:k]); Pc = Sx - G @ Sxy[:, :k].T
             b = slice(t * ds, (t + 1) * ds)
             if not (close(fm[t], mc[b], 1e-3) and close(fP[t], Pc[b, b], 1e-3)):
-                fails.append({"fn": "kalman_filter", "dims": [ds, do, T], "t": t, "observed_mean": [float(v) for v in fm[t]], "required_mean": [float(v) for v in mc[b]]})
+                fails.append({"fn": "kalman_filter", "dims": [ds, do, T], "integer_typed_prior": int_prior, "t": t, "observed_mean": [float(v) for v in fm[t]], "required_mean": [float(v) for v in mc[b]]})
         sm, sP = SS.kalman_smoother(jnp.array(y), jnp.array(m0), jnp.array(P0), jnp.array(A), jnp.array(Q), jnp.array(C), jnp.array(R))
         G = Sxy @ np.linalg.inv(Sy); mc = mx + G @ (yv - my); Pc = Sx - G @ Sxy.T
         for t in range(T):
